@@ -195,6 +195,16 @@ class Translator:
         elif ev in ('result_return', 'result_raise'):
             if a < 0 and not (ev == 'result_raise' and r['exc']['type'] == 'KeyboardInterrupt'):
                 self.emit(i, 'EResult', a, t, ev == 'result_raise')
+        elif ev == 'fs':
+            if r.get('mode') == 'rb' or not str(r.get('path', r.get('src', ''))).endswith('TEMP'):
+                return      # reads of upload sources and special files are not the model's business
+            ctx = self.cb_ctx.get(th)
+            if ctx:
+                tt = ctx[-1][0]
+            else:
+                st = self.stack.get(th, [])
+                tt = self.task_t.get(st[-1], 0) if st else 0
+            self.emit(i, 'EFs', a, tt, r['op'])
         elif ev == 'shutdown_begin':
             self.emit(i, 'EShutdownBegin')
         elif ev == 'executor_shutdown_call':
